@@ -389,11 +389,13 @@ def build():
             "engine": "qv",
             "level_claimed": {"category": "other",
                               "text": c["text"] + ((" " + SECOND_PASS[pid][0]) if SECOND_PASS.get(pid, ("",))[0] else "")
-                              + ((" " + THIRD_PASS[pid][0]) if pid in THIRD_PASS else ""),
-                              "design_ref": c["design"] + (", 9.5" if "9.5" not in c["design"] else "") + ", 9.8"},
+                              + ((" " + THIRD_PASS[pid][0]) if pid in THIRD_PASS else "")
+                              + ((" " + FOURTH_PASS[pid][0]) if pid in FOURTH_PASS else ""),
+                              "design_ref": c["design"] + (", 9.5" if "9.5" not in c["design"] else "") + ", 9.8, 9.9"},
             "level_note": c["note"],
             "technique": c["technique"] + (("; " + SECOND_PASS[pid][1]) if SECOND_PASS.get(pid, ("", ""))[1] else "")
-            + (("; " + THIRD_PASS[pid][1]) if pid in THIRD_PASS else ""),
+            + (("; " + THIRD_PASS[pid][1]) if pid in THIRD_PASS else "")
+            + (("; " + FOURTH_PASS[pid][1]) if pid in FOURTH_PASS else ""),
         })
     man = {
         "version": 1,
@@ -543,6 +545,50 @@ THIRD_PASS = {
             "matrix (no diagonalisation).", "provenance rule on the step exponentials"),
     "C20": ("Third pass: the public block helpers hand every rank exactly its block, with and without indices.",
             "finite evaluation of the helpers"),
+}
+
+
+# clauses added in the fourth pass (DESIGN 9.9)
+FOURTH_PASS = {
+    "C01": ("Fourth pass: the operator-form action is interpreted also when the conjugated operators are obtained by axis-"
+            "permuting transposes.", "TA interpretation of numpy.transpose with axes"),
+    "C02": ("Fourth pass: the requested expansion order is handed on by every delegating routine; evolution classes define "
+            "the frame flag at construction and derived evolutions carry it.", "option-forwarding rule, frame-flag rules"),
+    "C03": ("Fourth pass: build() has no stored-result or 'already built' short-cut that other setters do not invalidate.",
+            "stored-result (memo) analysis"),
+    "C04": ("Fourth pass: copies of basis-managed objects made by the library are registered with their basis.",
+            "copy-registration rule"),
+    "C05": ("Fourth pass: units-managed objects keep no converted value across calls.", "stored-result (memo) analysis"),
+    "C07": ("Fourth pass: a converted tensor is in the same flag state as one created in tensor form; the operator form "
+            "owns the operators it transforms in place.", "flag-state sibling rule, stored-input alias analysis"),
+    "C08": ("Fourth pass: no elemental step or other result is kept across calculations; at() hands out a superoperator "
+            "that owns its data.", "stored-result (memo) analysis, ownership rule on the returned object"),
+    "C09": ("Fourth pass: queries are answered from the current content (no kept temperature or transform); the record of "
+            "components belongs to the object and is not rewritten by queries.",
+            "stored-result (memo) analysis, record-intact and own-container rules"),
+    "C10": ("Fourth pass: the overlap table is not cut at a fixed size and the operator basis is not below the confirmed size.",
+            "table-extent and basis-size rules"),
+    "C11": ("Fourth pass: line strengths are computed from the current representation of the dipoles (nothing kept across a "
+            "transformation); the calculator reads the frequency axis under internal units.",
+            "stored-result (memo) analysis, internal-units discipline"),
+    "C12": ("Fourth pass: reading a signal does not change what is stored (rule of C19-F).", "ownership-state analysis"),
+    "C13": ("Fourth pass: transforms are computed from the current values; the inverse transform on an upper-half time axis "
+            "has the prefactor of the Fourier sum.", "stored-result (memo) analysis, scalar algebra on the prefactor"),
+    "C14": ("Fourth pass: the reorganisation energy subtracted from a band state is that of the molecule excited in it.",
+            "index-kind rule (state -> electronic state table)"),
+    "C15": ("Fourth pass: no result of an earlier call is kept by propagators, hierarchy and tensors; arrays handed in are not "
+            "written through views; attributes bound to arguments are not written in place.",
+            "stored-result (memo) analysis, array alias analysis, stored-input alias analysis"),
+    "C16": ("Fourth pass: the result of the hierarchy propagator is marked as rotating-frame and the initial state enters the "
+            "frame at the first time point.", "frame protocol rule"),
+    "C17": ("Fourth pass: neither the rate matrix nor an argument is written in place, also not through views; no exponential "
+            "kept across calls.", "array alias analysis, stored-result (memo) analysis"),
+    "C18": ("Fourth pass: exporters and importers of managed classes go through the managed property.",
+            "raw-storage access rule over 96 export/import methods"),
+    "C19": ("Fourth pass: no 'flag already set' short-cut over responses that can be changed independently.",
+            "stored-result (memo) analysis, effect-skip form"),
+    "C20": ("Fourth pass: every array filled inside a distributed loop and used afterwards is sum-reduced.",
+            "reduction-pairing rule over all arrays written in the loop"),
 }
 
 
